@@ -6,6 +6,8 @@ VF_BUCKET(uint32_t, 4, 128, 32, float);
 VF_BUCKET(uint64_t, 1, 4096, 0, float);
 #endif
 #if VF_GROUP == 1
+VF_BUCKET_ENUM(uint64_t, 1, 4, 0, float);
+VF_BUCKET_ENUM(uint32_t, 2, 7, 32, float);
 VF_BUCKET(uint16_t, 8, 16, 16, float);
 VF_BUCKET(uint8_t, 4, 3, 8, float);
 #endif
